@@ -6,6 +6,7 @@ open Verif.Props.C09
 #print axioms svg_path_lex_roundtrip
 #print axioms xml_lex_roundtrip
 #print axioms xml_output_relexes_partial
+#print axioms xml_output_markup_exact
 #print axioms xml_output_relexes_counterexample
 #print axioms xml_second_pass_defined
 #print axioms xml_idempotent_counterexample
